@@ -1,0 +1,55 @@
+//go:build verif
+
+package s2
+
+// Export hooks for properties C16 (edge intersection) and C17 (edge distances).
+// Compiled only with the build tag "verif"; thin wrappers, no behaviour.
+
+import (
+	"github.com/golang/geo/s1"
+)
+
+// VerifIntersectionStable exposes intersectionStable.
+func VerifIntersectionStable(a0, a1, b0, b1 Point) (Point, bool) {
+	return intersectionStable(a0, a1, b0, b1)
+}
+
+// VerifIntersectionExact exposes intersectionExact.
+func VerifIntersectionExact(a0, a1, b0, b1 Point) Point { return intersectionExact(a0, a1, b0, b1) }
+
+// VerifCompareEdges exposes compareEdges.
+func VerifCompareEdges(a0, a1, b0, b1 Point) bool { return compareEdges(a0, a1, b0, b1) }
+
+// VerifUpdateMinDistance exposes updateMinDistance.
+func VerifUpdateMinDistance(x, a, b Point, minDist s1.ChordAngle, always bool) (s1.ChordAngle, bool) {
+	return updateMinDistance(x, a, b, minDist, always)
+}
+
+// VerifInteriorDist exposes interiorDist.
+func VerifInteriorDist(x, a, b Point, minDist s1.ChordAngle, always bool) (s1.ChordAngle, bool) {
+	return interiorDist(x, a, b, minDist, always)
+}
+
+// VerifMinUpdateDistanceMaxError exposes minUpdateDistanceMaxError.
+func VerifMinUpdateDistanceMaxError(d s1.ChordAngle) float64 { return minUpdateDistanceMaxError(d) }
+
+// VerifMinUpdateInteriorDistanceMaxError exposes minUpdateInteriorDistanceMaxError.
+func VerifMinUpdateInteriorDistanceMaxError(d s1.ChordAngle) float64 {
+	return minUpdateInteriorDistanceMaxError(d)
+}
+
+// VerifUpdateEdgePairMinDistance exposes updateEdgePairMinDistance.
+func VerifUpdateEdgePairMinDistance(a0, a1, b0, b1 Point, minDist s1.ChordAngle) (s1.ChordAngle, bool) {
+	return updateEdgePairMinDistance(a0, a1, b0, b1, minDist)
+}
+
+// VerifUpdateEdgePairMaxDistance exposes updateEdgePairMaxDistance.
+func VerifUpdateEdgePairMaxDistance(a0, a1, b0, b1 Point, maxDist s1.ChordAngle) (s1.ChordAngle, bool) {
+	return updateEdgePairMaxDistance(a0, a1, b0, b1, maxDist)
+}
+
+// VerifC17Constants returns intersectionError, dblEpsilon, dblError, sqrt3 and
+// roundingEpsilon(float64) as float64 values.
+func VerifC17Constants() []float64 {
+	return []float64{float64(intersectionError), dblEpsilon, dblError, float64(sqrt3), roundingEpsilon(float64(0))}
+}
